@@ -44,18 +44,22 @@ def work(idx, items):
 
 def main():
     args = sys.argv[1:]
+    refactors = False
+    if args and args[0] == "--refactors":
+        refactors = True
+        args = args[1:]
     j = 4
     if args and args[0] == "-j":
         j = int(args[1])
         args = args[2:]
     items = []
-    sd = os.path.join(VERIF, "seeded")
+    sd = os.path.join(VERIF, "refactors" if refactors else "seeded")
     for n in sorted(os.listdir(sd)):
         p = os.path.join(sd, n, "patch.diff")
         if os.path.exists(p) and (not args or n in args):
             items.append((n, p))
     md = os.path.join(VERIF, "mutants")
-    for n in sorted(os.listdir(md)):
+    for n in sorted(os.listdir(md) if not refactors else []):
         if n.endswith(".diff") and (not args or n in args):
             items.append(("mutant:" + n[:-5], os.path.join(md, n)))
     chunks = [items[i::j] for i in range(j)]
@@ -64,6 +68,25 @@ def main():
         for r in ex.map(lambda a: work(*a), list(enumerate(chunks))):
             results.extend(r)
     results.sort()
+    if refactors:
+        lines = ["# Behaviour-preserving changes x checks", "",
+                 "Every change here keeps all behaviour (differential demonstration by its author, patch read by me); a check that fires on one is a FALSE ALARM.",
+                 "Produced by tools/seed_matrix.py --refactors.", "", "| change | kind | checks that fire | first report |", "|---|---|---|---|"]
+        for name, res, err in results:
+            if res is None:
+                lines.append("| %s | | %s | |" % (name, err))
+                continue
+            mp = os.path.join(sd, name, "meta.json")
+            m = json.load(open(mp))
+            fired = [p for p, v in res.items() if v.startswith("caught")]
+            infra = [p for p, v in res.items() if v == "infra"]
+            lines.append("| %s | %s | %s%s | %s |" % (name, m.get("kind", ""), " ".join(fired) or "-", (" INFRA:" + " ".join(infra)) if infra else "",
+                                                  (res[fired[0]][8:150].replace("|", "/") if fired else "")))
+            m["checks_fired"] = fired
+            json.dump(m, open(mp, "w"), indent=1)
+        open(os.path.join(sd, "MATRIX.md"), "w").write("\n".join(lines) + "\n")
+        print("\n".join(lines))
+        return
     lines = ["# Seeded changes x checks", "",
              "`caught` = the check exits 1 with a VIOLATION line when the change is applied to a scratch copy of /repo HEAD; `-` = silent.",
              "Produced by tools/seed_matrix.py.", "", "| change | home property | caught by | silent home? |", "|---|---|---|---|"]
